@@ -51,6 +51,11 @@ PROPS = {
         'trusted': ['SHA-1: a buffer whose digest equals the recorded hash is the recorded content (collision resistance)'],
         'assumptions': [],
     },
+    'C10': {
+        'kinds': {101: {'quick': 2500, 'thorough': 60000}, 102: {'quick': 800, 'thorough': 20000}},
+        'trusted': ['the dispatch of torrent.run() is mirrored by hand in VLoop.PumpEx', 'WriteCacheSize is large enough that the write-cache manager never defers a piece download in the generated scenarios'],
+        'assumptions': ['the history was accepted by the model (s_bad = 0), which the correspondence establishes per generated history'],
+    },
     'C13': {
         'kinds': {1301: {'quick': 2500, 'thorough': 50000}, 1302: {'quick': 3000, 'thorough': 60000}, 303: {'quick': 160, 'thorough': 2400}},
         'trusted': ['net/url (Parse, ParseQuery, QueryEscape) beyond sampled agreement with the byte-level model', 'SHA-1 (adoption compares the digest of the assembled bytes with the info-hash)'],
